@@ -412,6 +412,9 @@ func (e *kvElection) becomeLeader(token string, rev uint64) bool {
 		}
 	}
 
+	// Health failures are counted per term.
+	e.healthFailureCount.Store(0)
+
 	e.isLeader.Store(true)
 	e.leaderID.Store(e.cfg.InstanceID)
 	e.token.Store(token)
